@@ -158,6 +158,7 @@ class Session:
             server="10.9.8.7:8080",
             autoack=bool(self.script.get("autoack", True)),
             maxchunk=int(self.script.get("maxchunk", 16384)),
+            opening=str(self.script.get("opening", "")),
         )
         for cr in self.script.get("creqs", []):
             self.trace.log("c_req", **cr)
